@@ -41,11 +41,13 @@ func c14(c *Ctx) {
 		"(enums) validateKey, folded for every OutputPrefixType and KeyStatusType constant plus an out-of-range probe, accepts exactly {TINK,LEGACY,RAW,CRUNCHY} x {ENABLED,DISABLED,DESTROYED} and rejects nil key data; keyStatusFromProto / the prefix tables agree on the same sets; " +
 		"(structure) Validate rejects nil/empty keysets, applies validateKey to every key, rejects a repeated key ID through a map every iteration feeds, rejects a non-ENABLED primary and a second primary, and succeeds only with an ENABLED primary found; " +
 		"(strength) the strength validators, folded at their boundaries, reject exactly below the library minimums (AES key in {16,32}; RSA modulus >= 2048 and e == 65537; ECDSA hash no weaker than the curve; HKDF-PRF key >= 32 with SHA-256/512; HMAC-PRF key >= 16; AES-CMAC-PRF key == 32; HMAC under C04) and every primitive constructor of those key types passes through its validator on every success path. " +
+		"(bigint) every narrowing of a big integer parsed from key material (Int64/Uint64) is dominated by the matching IsInt64/IsUint64 check on the same value, so oversized RSA exponents cannot be truncated into acceptable ones. " +
 		"Not decided: absence of run-time panics in general (index arithmetic in loops, stdlib), self-consistency of created primitives (behavioural)."
 	c14Validate(c)
 	c14Enums(c)
 	c14Structure(c)
 	c14Strength(c)
+	c14BigInt(c)
 }
 
 // ---------------------------------------------------------------- validate
@@ -498,4 +500,59 @@ func c14Strength(c *Ctx) {
 		r.Check(good, "C14.strength", "C14.strength/internal/signature.validRSAPublicKey", p.FuncPos(f), "validRSAPublicKey does not check both modulus size and public exponent", "modulus check passed, exponent check returned")
 	}
 	_ = aes
+}
+
+// c14BigInt: a big integer decoded from untrusted bytes is narrowed with
+// Int64()/Uint64() only under a dominating IsInt64()/IsUint64() check on the
+// same value (or a BitLen bound); otherwise high bits are silently dropped —
+// e.g. an RSA exponent 2^64+65537 would be accepted as 65537.
+func c14BigInt(c *Ctx) {
+	p, r := c.P, c.R
+	n := 0
+	for _, f := range p.SortedFuncs(core.Product) {
+		allInstrs(f, func(ins ssa.Instruction) {
+			call, ok := ins.(*ssa.Call)
+			if !ok {
+				return
+			}
+			nme := guard.CalleeName(&call.Call)
+			var check string
+			switch nme {
+			case "(*math/big.Int).Int64":
+				check = "(*math/big.Int).IsInt64"
+			case "(*math/big.Int).Uint64":
+				check = "(*math/big.Int).IsUint64"
+			default:
+				return
+			}
+			n++
+			key := fmt.Sprintf("C14.bigint/%s/%s", core.FuncID(f), shortName(nme))
+			recv := call.Call.Args[0]
+			good := false
+			for _, fct := range guard.InstrFacts(ins) {
+				if bc, val, isB := guard.BoolCallFact(fct); isB && val && guard.CalleeName(&bc.Call) == check && guard.SameValue(bc.Call.Args[0], recv) {
+					good = true
+				}
+				// BitLen() bound
+				if op, x, y, isC := guard.Cmp(fct); isC && (op == token.LEQ || op == token.LSS) {
+					if bl, _ := guard.CallOf(x); bl != nil && guard.CalleeName(&bl.Call) == "(*math/big.Int).BitLen" && guard.SameValue(bl.Call.Args[0], recv) {
+						if k, isK := guard.ConstInt(y); isK && k <= 63 {
+							good = true
+						}
+					}
+				}
+			}
+			// a value built in this function from a machine integer is exact by construction
+			if sc, _ := guard.CallOf(recv); sc != nil {
+				switch guard.CalleeName(&sc.Call) {
+				case "math/big.NewInt", "(*math/big.Int).SetInt64", "(*math/big.Int).SetUint64":
+					good = true
+				}
+			}
+			r.Check(good, "C14.bigint", key, p.Pos(ins.Pos()), "a big integer parsed from key material is narrowed without a dominating "+shortName(check)+"() check: a value that does not fit (e.g. an RSA exponent 2^64+65537) is silently truncated and accepted as a small one",
+				"dominated by "+shortName(check)+"() == true on the same value")
+		})
+	}
+	r.Counts["bigint_narrowings"] = n
+	r.Min("C14.bigint", 8)
 }
